@@ -155,6 +155,7 @@ class C20(engine.Property):
     title = "randgraph always returns a universe of exactly `count` well-formed vertices"
     max_steps = 12
     nontermination_is_violation = True
+    run_wall_s = 8  # a graph of at most 40 vertices is there in milliseconds
     budget = {
         "quick": {"runs": 40000, "wall_cap_s": 600},
         "thorough": {"runs": 2000000, "wall_cap_s": 5400},
